@@ -118,6 +118,22 @@ func systematic() []planT {
 	for _, f := range []string{"newgun@0", "newgun@1", "newgun@2", "bind@1", "bind@3", "warmup", "sched@1", "sched@2"} {
 		add("none", 0, with(func(p *pspec) { p.fail = f; p.inst = 3; p.ek = "dl" }))
 	}
+	// a %w-wrapped context error (http provider, preload interrupted): a component failure for the engine
+	for _, pos := range []string{"late", "end", "pre"} {
+		add("none", 0, with(func(p *pspec) { p.prov = pos + ".err"; p.ek = "fw" }))
+	}
+	add("none", 0, with(func(p *pspec) { p.agg = "late.err"; p.ek = "fw" }))
+	// a slow preload: no ammo before the context is done. Nothing to shoot (0 instances): the engine's own cancel
+	// interrupts it; with instances the caller's cancel does (the instances wait for ammo)
+	for _, ek := range []string{"fw", "", "dl"} {
+		add("none", 0, with(func(p *pspec) { p.prov = "load.err"; p.ek = ek; p.inst = 0 }))
+		for _, c := range []string{"pre", "warm", "bind"} {
+			add(c, 0, with(func(p *pspec) { p.prov = "load.err"; p.ek = ek }))
+		}
+	}
+	add("none", 0, with(func(p *pspec) { p.prov = "load.nil"; p.inst = 0 }))
+	add("none", 0, with(func(p *pspec) { p.prov = "load.ctx"; p.inst = 0 }))
+	add("bind", 0, with(func(p *pspec) { p.prov = "load.ctxw" }))
 	// ... and the context's own error wrapped by the component (errors.Cause must be used): still a clean end
 	add("none", 0, with(func(p *pspec) { p.prov = "late.ctxw"; p.agg = "late.ctxw" }))
 	add("none", 0, with(func(p *pspec) { p.prov = "late.ctxw"; p.inst = 1; p.ammo = 1; p.shots = 1 }))
@@ -261,8 +277,11 @@ func randomPlan(r *rand.Rand) planT {
 		case 1:
 			p.agg = []string{"late.ctx", "late.ctxw"}[r.Intn(2)]
 		}
-		if r.Intn(4) == 0 {
+		switch r.Intn(8) {
+		case 0, 1:
 			p.ek = "dl"
+		case 2:
+			p.ek = "fw"
 		}
 		if r.Intn(3) == 0 {
 			var fs []string
